@@ -12,13 +12,17 @@ from __future__ import annotations
 import json
 import random
 
-from .. import compile_tie, core, par
+from .. import compile_tie, core, flat_tie, par
 from ..flows import canon_flow, compile_flow_sheet, compile_index, rename_uuids_by_first_occurrence, rows_to_csv
 from ..gen import sheets as G
 from ..gen import sugar as S
 
 MANIFEST = dict(
+<<<<<<< HEAD
     text="Proof: (1) Lean theorem sugar_equiv_of_cert (validated bisimulation certificate ⇒ equal traces for every contact input sequence, full observation level) applied by the driver to the REAL compiler's output for each sugared sheet and for its desugared twin; (2) Lean model of the parser's block structure (Rpft/Sugar.lean) with events_desugar: for every sheet tree and context the parser performs the same row events on a sheet and on its desugared form (loops unrolled in order with loop/index variables bound, false include_if rows and blocks dropped without being evaluated, loop variables gone after end_for, nesting composes); (3) the block clause on the Lean compiler model for all machine states: block_edge_group (an edge naming a block changes nothing but node contents and connects exactly the nodes the NodeGroup recursion reaches), block_edge_frame / block_edge_connects_reach (connected and hard exits keep their destination, loose exits of reached nodes lead to the edge's destination), block_edge_inside and the kernel-checked F-C03-a witness block_edge_reaches_outside. Tie: real compiler on generated sugared sheets vs twins (nesting ≤ 3, 0..3 iterations, string/range/native lists, index variables, include_if literals and expressions, excluded blocks with unevaluable content, inserted templates with data rows and arguments).",
+=======
+    text="Proof: (1) Lean theorem sugar_equiv_of_cert (validated bisimulation certificate ⇒ equal traces for every contact input sequence, full observation level) applied by the driver to the REAL compiler's output for each sugared sheet and for its desugared twin; (2) Lean model of the parser's block structure (Rpft/Sugar.lean) with events_desugar: for every sheet tree and context the parser performs the same row events on a sheet and on its desugared form (loops unrolled in order with loop/index variables bound, false include_if rows and blocks dropped without being evaluated, loop variables gone after end_for, nesting composes). Tie: real compiler on generated sugared sheets vs twins (nesting ≤ 3, 0..3 iterations, string/range/native lists, index variables, include_if literals and expressions, excluded blocks with unevaluable content, inserted templates with data rows and arguments). (3) Flat sheets (Rpft/SugarFlat.lean, Props/C03_Flat.lean): the real parser works on the flat row list with an iterator, bookmarks by depth and a mutable context; that machine is modelled line by line (runFlat) and proved equal, for EVERY flat sheet, context and interface satisfying FlatLaws (row kinds not templated, loop and index variable distinct, the context is a dictionary), to the tree reading of the sheet's scan tree (flat_eq_scan_tree: same events, same order, same first error also on ill-nested sheets, final context = initial context, the model's fuel never runs out), hence to Sugar.evItems of the parsed tree on well-nested quiet sheets (flat_eq_tree) and to events_desugar on flat sheets (flat_events_desugar); parseTree (the Lean tree_of_rows) and flatten are inverse (parse_flatten, flatten_parse) and parseTree agrees with the C15 block machine (parse_fault_is_cli_fault). Tie: runFlat vs the traced real _parse_block (consumer stubbed, first CRITICAL stops as in the CLI) on well-nested and ill-nested sheets (unterminated, mismatched, stray end rows, begin rows in excluded blocks, loops as last rows, empty sheets, uninstantiable rows, unknown types, initial contexts that loops shadow), parseTree vs tree_of_rows, and the replay of the sheets where the real parser and the tree reading differ (needs_… witnesses).",
+>>>>>>> b-flat
     ref="§5 C03",
     note="Trusts: Lean kernel; certificate search untrusted; the harness desugarer uses the repo's own template engine to substitute loop variables (the meaning of {{v}} is not C03's subject); NodeGroup exit semantics: proved on the Lean compiler model (tied to the real parser by the exact comparison of C01) and exercised on the real code by the with/without-edge oracle. Known findings: F-C03-a (edge naming a block also connects exits of rows leading into it).",
     technique="Lean 4 proof (certificate soundness; structural induction on the block tree) + metamorphic sugared-vs-desugared check on the real compiler",
@@ -334,6 +338,76 @@ def insert_case(rng):
     return a, b
 
 
+def flat_worker(args):
+    """flat machine tie: real `_parse_block` over the real SheetParser vs Rpft/SugarFlat.lean `runFlat`"""
+    seed, n, maxrows = args
+    rng = random.Random(seed)
+    drv = core.Driver()
+    cases, reqs = [], []
+    for _ in range(n):
+        rows = S.gen_sugar_sheet(rng, rng.randint(3, maxrows))
+        if rng.random() < 0.3:
+            rows = after_loop_probe(rng, rows)
+        strat = "well_nested"
+        if rng.random() < 0.6:
+            strat, rows = flat_tie.mutate(rng, rows)
+        # sometimes an initial context whose names the loops shadow (restored at end_for)
+        ctx = {"v0": "outer", "i0": 5, "v1": "o1"} if rng.random() < 0.3 else None
+        tr = flat_tie.trace_flat(G.HEADERS, rows, ctx)
+        cases.append((strat, rows, ctx, tr))
+        reqs += flat_tie.requests(tr)
+    ans = drv.results(reqs)
+    stats, ties = {}, []
+    for k, (strat, rows, ctx, tr) in enumerate(cases):
+        run, treerun, tree = ans[3 * k: 3 * k + 3]
+        outcome = tr["real"].get("stop", "ok")
+        key = f"flat.{strat}.{outcome}"
+        stats[key] = stats.get(key, 0) + 1
+        if ctx:
+            stats["flat.with_initial_context"] = stats.get("flat.with_initial_context", 0) + 1
+        if "tree" in tree:
+            stats["flat.parseTree_eq_tree_of_rows.well_nested"] = stats.get("flat.parseTree_eq_tree_of_rows.well_nested", 0) + 1
+        else:
+            stats["flat.parseTree_eq_tree_of_rows.ill_nested"] = stats.get("flat.parseTree_eq_tree_of_rows.ill_nested", 0) + 1
+        for law in flat_tie.law_checks(tr):
+            ties.append({"what": "a law of FlatLaws does not hold on a generated sheet: " + law[0], "csv": rows_to_csv(G.HEADERS, rows), "detail": list(law)})
+        for what, detail in flat_tie.compare(tr, rows, run, treerun, tree):
+            ties.append({"what": what, "csv": rows_to_csv(G.HEADERS, rows), "context": ctx, "detail": detail})
+    ties.sort(key=lambda t: len(t["csv"]))
+    return {"stats": stats, "ties": ties[:3], "nties": len(ties), "n": len(cases)}
+
+
+def flat_stream(ck, quick):
+    """the flat-sheet part of C03 (Props/C03_Flat.lean): tie of `runFlat` / `parseTree`, and the replay
+    of the sheets on which the real parser and the tree reading `Sugar.evItems` differ"""
+    drv = core.Driver()
+    ck.assumptions.append("flat machine (Props/C03_Flat.lean): equality of contexts is equality of dicts (insertion order ignored); "
+                          "the interface of the model run is read off the real run (raw kinds / raw-parse failures from the real RowParser, instantiations "
+                          "from the trace); the laws kind_inst and vars_ne are checked on every traced run")
+    # deterministic: the witnesses of the hypotheses of flat_eq_tree, on the real parser and on the model
+    for name, hdr, rows, expect in flat_tie.witnesses(G.HEADERS):
+        tr = flat_tie.trace_flat(hdr, rows)
+        run, treerun, tree = drv.results(flat_tie.requests(tr))
+        ck.count("flat.witness." + name + (".as_recorded" if (expect is None and "events" in tr["real"]) or expect == tr["real"] else ".behaves_differently_now"))
+        for what, detail in flat_tie.compare(tr, rows, run, treerun, tree):
+            ck.tie_break(what + " (witness " + name + ")", {"csv": rows_to_csv(hdr, rows), "detail": detail})
+    n_total = 1920 if quick else 12000
+    nshards = par.NPROC * (1 if quick else 4)
+    jobs = [(ck.rng.randrange(1 << 60), n_total // nshards, 14 if quick else 30) for _ in range(nshards)]
+    total = 0
+    for r in par.pmap(flat_worker, jobs):
+        total += r["n"]
+        for k, v in r["stats"].items():
+            ck.count(k, int(v))
+        for t in r["ties"]:
+            ck.tie_break(t["what"], t)
+    ck.extra["flat_machine_sheets_compared"] = total
+    for need in ("flat.well_nested.ok", "flat.unterminated.fault", "flat.mismatched.fault", "flat.stray_end.fault", "flat.begin_in_excluded.fault",
+                 "flat.loop_last.ok", "flat.empty_sheet.ok", "flat.cut_after_begin.fault", "flat.with_initial_context"):
+        if ck.strata.get(need, 0) < 3:
+            raise core.Infra(f"generator stratum {need} under-represented: {ck.strata.get(need, 0)}")
+
+
 def run(ck: core.Check):
     ck.lean = core.lean_step("C03", thorough=(ck.tier == "thorough"))
     if not core.DRIVER_BIN.exists():
@@ -389,6 +463,7 @@ def run(ck: core.Check):
             ck.violation(det.get("what", "sugared and desugared differ"),
                          {"sugared_csv": rows_to_csv(G.HEADERS, rows), "desugared_csv": twin_csv, "rows": rows, "detail": det})
     ck.extra["certificate_pairs_validated"] = total_pairs
+    flat_stream(ck, quick)
 
     # inserted blocks
     n_ins = 60 if quick else 600
